@@ -47,6 +47,18 @@ def _resolve(t, node) -> Any:
             continue
         except Exception as e:  # noqa
             return f"<error:{type(e).__name__}>"
+    # the interpreters' last resort: a state anywhere in the tree whose local name is the target
+    hits = []
+
+    def walk(n):
+        if n.id.split(".")[-1] == ts:
+            hits.append(n.id)
+        for c in n.states.values():
+            walk(c)
+
+    walk(machine)
+    if hits:
+        return hits[0]
     return f"<unresolved:{ts}>"
 
 
